@@ -345,10 +345,10 @@ class Ctx:
             (VERIF / 'replay').mkdir(exist_ok=True)
             seen = set()
             for n, (sig, detail) in enumerate(self.violations):
-                if sig in seen and n >= 20:
+                if sig in seen:
                     continue
                 seen.add(sig)
-                if n >= 40:
+                if n >= 12:
                     break
                 path = VERIF / 'replay' / ('%s-%s-%d.json' % (self.prop, self.tier, n))
                 path.write_text(json.dumps({'property': self.prop, 'signature': sig, 'detail': detail,
@@ -361,3 +361,49 @@ class Ctx:
             len(self.known), len(self.skipped), wall), flush=True)
         shutil.rmtree(self.scratch, ignore_errors=True)
         return rc
+
+
+# ----------------------------------------------------------------------------------
+# cfg generation (constants vary per run; the module text is the single source of truth)
+
+def tla_value(v):
+    if isinstance(v, bool):
+        return 'TRUE' if v else 'FALSE'
+    if isinstance(v, int):
+        return str(v)
+    if isinstance(v, str):
+        return '"%s"' % v
+    if isinstance(v, (set, frozenset)):
+        return '{' + ', '.join(tla_value(x) for x in sorted(v)) + '}'
+    raise TypeError(v)
+
+
+def write_cfg(path, constants=None, *, spec='Spec', init=None, next_=None, invariants=(), properties=(),
+              view=None, constraints=(), action_constraints=(), postcondition=None, deadlock=False,
+              subst=None):
+    lines = []
+    if init:
+        lines += ['INIT ' + init, 'NEXT ' + next_]
+    else:
+        lines.append('SPECIFICATION ' + spec)
+    if constants or subst:
+        lines.append('CONSTANTS')
+        for k, v in (constants or {}).items():
+            lines.append('  %s = %s' % (k, tla_value(v)))
+        for k, v in (subst or {}).items():
+            lines.append('  %s <- %s' % (k, v))
+    for i in invariants:
+        lines.append('INVARIANT ' + i)
+    for p in properties:
+        lines.append('PROPERTY ' + p)
+    if view:
+        lines.append('VIEW ' + view)
+    for c in constraints:
+        lines.append('CONSTRAINT ' + c)
+    for c in action_constraints:
+        lines.append('ACTION_CONSTRAINT ' + c)
+    if postcondition:
+        lines.append('POSTCONDITION ' + postcondition)
+    lines.append('CHECK_DEADLOCK ' + ('TRUE' if deadlock else 'FALSE'))
+    Path(path).write_text('\n'.join(lines) + '\n')
+    return str(path)
